@@ -183,6 +183,7 @@ class Intersection:
             distances[k] = np.linalg.norm(pointati - pointbuj)
         distances = np.abs(distances)
         matchs = np.abs(distances - np.min(distances)) < tolerance
+        matchs &= distances < 1e-6  # the nearest pair of two curves that do not meet is no intersection
         pairs = np.array(pairs, dtype="float64")[matchs]
         return heavy.totuple(pairs)
 
